@@ -1,6 +1,7 @@
 import Driver.Util
 import Driver.Names
-import Typegen.Analyze
+import Typegen.Generate
+import Driver.Types
 /-! decoding the project IR; op `project` (analysis part) -/
 open Lean
 namespace Drv
@@ -169,18 +170,45 @@ end Drv
 namespace Drv
 open Pj An
 
-def opProjectAnalysis (inp imp : Json) : Except String Json := do
+/-- whitespace-free form of a generated file with its leading header comment removed -/
+def squash (s : Str) : Str := s.filter fun c => !(c == ' ' || c == '\n' || c == '\t' || c == '\r')
+
+def dropHeader (s : Str) : Str :=
+  -- the file starts with `/** … */` (common/header.tera); drop through the first `*/`
+  match A.findSub cl!"*/" s with
+  | some i => if A.startsWith s cl!"/**" then s.drop (i + 2) else s
+  | none => s
+
+def cfgOf (j : Json) : Gn.Config :=
+  { zod := (getS j "mode").toOption == some "zod", mappings := mappingsOf j,
+    paramCase := ((getS j "param_case").toOption.getD "camelCase").toList,
+    fieldCase := ((getS j "field_case").toOption.getD "snake_case").toList }
+
+def opProject (inp imp : Json) : Except String Json := do
   let p ← projectOf (← inp.getObjVal? "project")
+  let cfg := cfgOf ((inp.getObjVal? "config").toOption.getD Json.null)
   let a := analyze p
   let mj := analysisJson a
-  let pick (j : Json) : Json := obj [
-    ("commands", (j.getObjVal? "commands").toOption.getD Json.null),
-    ("events", (j.getObjVal? "events").toOption.getD Json.null),
-    ("structs", (j.getObjVal? "structs").toOption.getD Json.null),
-    ("deps", (j.getObjVal? "deps").toOption.getD Json.null)]
-  let diff := ["commands", "events", "structs", "deps"].filter fun k =>
+  let diffA := ["commands", "events", "structs", "deps"].filter fun k =>
     (imp.getObjVal? k).toOption != (mj.getObjVal? k).toOption
-  pure <| obj [("model", mj), ("agree", jb (pick imp == pick mj)), ("diff", jSs diff),
-    ("oracle_impl", obj []), ("oracle_model", obj []), ("nontrivial", jb true), ("class", Json.arr #[])]
+  -- generation
+  let out := Gn.generate cfg a
+  let noCommands := a.commands.isEmpty
+  let modelFiles : List (String × Str) :=
+    if noCommands then [] else
+    [("types.ts", Gn.fileText out.types), ("commands.ts", Gn.fileText out.commands)] ++
+    (match out.events with | some e => [("events.ts", Gn.fileText e)] | none => []) ++
+    [("index.ts", Gn.fileText out.index)]
+  let implFiles := (imp.getObjVal? "files").toOption.getD (Json.mkObj [])
+  let implNames : List String := match implFiles with | .obj kvs => kvs.toList.map (·.1) | _ => []
+  let diffF := (modelFiles.filter fun (n, t) =>
+      match implFiles.getObjVal? n with
+      | .ok (.str it) => squash (dropHeader it.toList) != squash t
+      | _ => true).map (·.1) ++
+    (implNames.filter fun n => !(modelFiles.any fun m => m.1 == n))
+  let agree := diffA.isEmpty && diffF.isEmpty
+  pure <| obj [("model", obj [("analysis", mj), ("files", Json.mkObj (modelFiles.map fun (n, t) => (n, jstr t)))]),
+    ("agree", jb agree), ("diff", jSs (diffA ++ diffF)),
+    ("oracle_impl", obj []), ("oracle_model", obj []), ("nontrivial", jb (!noCommands)), ("class", Json.arr #[])]
 
 end Drv
